@@ -759,6 +759,42 @@ theorem written_pod_ge_container (cfg : Cfg) (hs : ScaleOK cfg.scale) (v2 : Bool
   · simpa using pod_shares_ge_container cs c hmem
   · simpa using pod_weight_ge_container cs c hmem
 
+/-- a container without a status / container id (no cgroup yet) is left alone by the reconciler path and by the
+    rule callbacks, whatever it declares; with an id the reconciler request is the one of `ctrFromReconciler`. -/
+theorem no_status_no_write (k : Consts) (cfg : Cfg) (isBE v2 : Bool) (init : Files) (pod : List (Option Ctr))
+    (a : Ann) (i : Nat) :
+    applyOut v2 init (ctrEntry k cfg isBE (ctrFromReconcilerSt false pod a i)) = init ∧
+    applyQuota v2 init (ctrEntry k cfg isBE (ctrFromReconcilerSt false pod a i)) = init ∧
+    ctrFromReconcilerSt true pod a i = ctrFromReconciler pod a i := by
+  simp [ctrFromReconcilerSt, ctrEntry, applyOut, applyQuota]
+
+/-! ### 10. rule glue: NodeSLO shape and ratio annotation -/
+
+/-- the CFS quota of BE pods is given up exactly for an explicit BE strategy that is ENABLED and uses the cfsQuota
+    policy; nil spec, missing strategy, unset policy (default strategy), `enable: false` and the cpuset policy all keep it. -/
+theorem slo_glue (s : SloShape) : sloEnablesCFS s = false ↔ s = .strategy true 2 := by
+  cases s with
+  | nilSpec => simp [sloEnablesCFS, suppressPolicyOf]
+  | noStrategy => simp [sloEnablesCFS, suppressPolicyOf]
+  | strategy e p =>
+    unfold sloEnablesCFS suppressPolicyOf
+    by_cases hp : p = 0
+    · subst hp; simp
+    · cases e <;> simp [hp]
+
+/-- an absent ratio annotation is the -1 sentinel ("no ratio": a stored ratio is reset, see `ratio_removed_resets`),
+    a malformed or non-positive one is an error that leaves the rule alone, a positive one is taken as it is. -/
+theorem ratio_glue (changed : Int → Int → Bool) (r : Rule) :
+    ratioEv .absent = .nodeRatio (-100) ∧
+    (Rule.step changed r (ratioEv .malformed)) = (r, false) ∧
+    (∀ p, p ≤ 0 → (Rule.step changed r (ratioEv (.value p))) = (r, false)) ∧
+    (∀ p, 0 < p → ratioEv (.value p) = .nodeRatio p) := by
+  refine ⟨rfl, rfl, ?_, ?_⟩
+  · intro p hp; simp [ratioEv, hp, Rule.step]
+  · intro p hp
+    have : ¬ p ≤ 0 := by omega
+    simp [ratioEv, this]
+
 /-! ### non-vacuity -/
 
 example : ChangedOK (fun a b => decide (a ≠ b)) := ⟨fun a b h => by simp; omega, fun a => by simp⟩
